@@ -285,12 +285,13 @@ func (p *Parser) parseBetweenExpression(left Expression) Expression {
 		Range: [2]Expression{},
 	}
 
-	// both bounds have to be operands
+	// both bounds have to be operands: a name or placeholder, optionally continued as a document
+	// path (a.b, a[1]) or a function call (size(a)); comparators and AND end the operand
 	if !p.expectPeek(IDENT) {
 		return nil
 	}
 
-	expression.Range[0] = p.parseIdentifier()
+	expression.Range[0] = p.parseExpression(precedenceValueOperators)
 
 	if !p.expectPeek(AND) {
 		return nil
@@ -300,7 +301,7 @@ func (p *Parser) parseBetweenExpression(left Expression) Expression {
 		return nil
 	}
 
-	expression.Range[1] = p.parseIdentifier()
+	expression.Range[1] = p.parseExpression(precedenceValueOperators)
 
 	return expression
 }
